@@ -18,7 +18,7 @@ EXPLANATION = (
     "the cursor advanced by the float-derived skip with a saturating/guarded addition, the cursor CONSUMED BY SUBTRACTION in the carry "
     "loop that increments the row, the pair pushed under row < n, add_edge_tuples at the end.  R-C16-3 complete_graph: the node list "
     "handed to the constructor derives from 0..num_nodes, combinations(2) is used exactly when undirected and permutations(2) when "
-    "directed.  NOT decided: the edge distribution, 'every pair can occur', the 34x34 karate-club data literal."
+    "directed.  (R-C16-2 also requires that no plain arithmetic is applied to the saturated cursor.)  NOT decided: the edge distribution, 'every pair can occur', the 34x34 karate-club data literal."
 )
 TRUSTED = ["rustc MIR construction", "itertools combinations/permutations semantics", "the published skipping algorithm (Batagelj & Brandes 2005) as reference for the sibling features"]
 
@@ -134,6 +134,7 @@ EXPECTED = {
     "nodes_created_first": True,
     "draw": "ln(1 - gen::<f64>())",
     "cursor_advance": "saturating",
+    "plain_arithmetic_on_saturated_cursor": None,
     "carry_cursor_op": "Sub",
     "carry_row_step": "+1",
     "push_under_row_lt_n": True,
@@ -197,6 +198,16 @@ def kernel_features(prog, flows, k):
                 if any(L(c) in sl for c in cast_locals):
                     adv = "unchecked"
     f["cursor_advance"] = adv
+    # ... and nothing is added to the saturated value in the same expression: `w.saturating_add(skip) + 1` is i32::MAX + 1
+    # for a sparse graph (the skip saturates exactly when p is small), where the published scheme just ends the loop
+    plain = set()
+    for s in k.stmts():
+        if s.k == "assign" and s.rv.k == "binop" and s.rv.j["op"].replace("WithOverflow", "").replace("Unchecked", "") in ("Add", "Sub", "Mul") and k.local_ty(s.lhs.local).lstrip("(").startswith("i32"):
+            for o in s.rv.ops:
+                d = fl.describe(o, depth=8)
+                if desc_mentions(d, lambda x: x[0] == "call" and x[1].split("::")[-1] in ("saturating_add", "saturating_sub", "saturating_mul")):
+                    plain.add(s.rv.j["op"].replace("WithOverflow", ""))
+    f["plain_arithmetic_on_saturated_cursor"] = "/".join(sorted(plain)) if plain else None
     if cursor is None:
         # fall back: the i32 local named in the pushed tuple's second component
         cands = [l["i"] for l in k.locals if l["ty"] == "i32" and l["name"] and l["i"] > k.arg_count and len(k.assigns_to(l["i"])) >= 3]
